@@ -100,3 +100,19 @@ class PdoSet(Contract):
             compare("==", S.le_uint(s.w.get(s.pre["pm"], "data")), PdoSet.expected(s))),
         "update-called-once": lambda s: Implies(s.returned, len([e for e in s.ev if e == ("update",)]) == 1),
     }
+
+
+@contract
+class PdoDataSize(Contract):
+    """the frame of a map is ceil(total mapped bits / 8) bytes long"""
+    target = "canopen.pdo.base:PdoMap._update_data_size"
+    props = ("C05",)
+
+    def setup(self, w, case):
+        total = w.int("total_bits", 0, 64)
+        pm = w.obj("canopen.pdo.base:PdoMap", length=total, data=w.bytearray([]))
+        w.pre.update(pm=pm, total=total)
+        return Call(("method", pm, "_update_data_size"), [])
+
+    ensures = {"ceil": lambda s: And(s.returned, compare("==", S.blen(s.w.get(s.pre["pm"], "data")),
+                                                         binop(">>", binop("+", s.pre["total"], 7), 3)))}
